@@ -120,7 +120,11 @@ func vfBootEnv() (env *vfEnvT, err error) {
 		return nil, e
 	}
 
-	env.backend = httptest.NewServer(http.HandlerFunc(vfBackend))
+	// no keep-alive: the backend closes every connection after its response, so the thousands of
+	// Proxy instances of a run do not park idle connections (and client-side TIME_WAIT sockets)
+	env.backend = httptest.NewUnstartedServer(http.HandlerFunc(vfBackend))
+	env.backend.Config.SetKeepAlivesEnabled(false)
+	env.backend.Start()
 	blk, _ := pem.Decode([]byte(vfCertPEM))
 	env.peerCert, e = x509.ParseCertificate(blk.Bytes)
 	if e != nil {
